@@ -157,8 +157,13 @@ func (e *Engine) callFunc(st *State, fn *ssa.Function, binds []Val, args []Val, 
 			e.heapHavoc(st, h)
 		}
 		// plus everything reachable through the arguments in one step (dynamic calls inside
-		// the callee are invisible to the mod-set analysis)
-		e.havocArgs(st, args)
+		// the callee are invisible to the mod-set analysis); the receiver itself is only
+		// written by the callee's own stores, which the mod set covers
+		if fn.Signature.Recv() != nil && len(args) > 0 {
+			e.havocArgs(st, args[1:])
+		} else {
+			e.havocArgs(st, args)
+		}
 	} else if !readOnlyCallee(fn.Name()) {
 		e.havocArgs(st, args)
 	}
